@@ -351,6 +351,9 @@ func (r *Run) opHostile(op *Op) {
 		resp = r.simple("PUT", target(op.B, "", nil), op)
 	case "rmbucket":
 		resp = r.simple("DELETE", target(op.B, "", nil), op)
+	case "forcerm":
+		// Minio-style forced bucket deletion: the bucket goes with all its objects, nothing else does
+		resp = r.send(&simnetRequest{Method: "DELETE", Target: target(op.B, "", nil), Headers: [][2]string{{"x-minio-force-delete", "true"}}}, op.Faults, r.frag(op))
 	default:
 		panic("hostile sub-op " + op.Sub)
 	}
@@ -386,7 +389,7 @@ func (r *Run) opHostile(op *Op) {
 
 	after := r.snapshotStore(extra...)
 	except := [][2]string{addr}
-	if op.Sub == "mkbucket" || op.Sub == "rmbucket" {
+	if op.Sub == "mkbucket" || op.Sub == "rmbucket" || op.Sub == "forcerm" {
 		// bucket-level operation: the bucket set may change by exactly this bucket
 		before.Names, after.Names = withoutName(before.Names, op.B), withoutName(after.Names, op.B)
 		delete(before.Buckets, op.B)
@@ -428,9 +431,12 @@ func (r *Run) opHostile(op *Op) {
 			r.M.CreateBucket(op.B)
 		}
 		return
-	case "rmbucket":
+	case "rmbucket", "forcerm":
 		if resp.OK() {
 			delete(r.M.Buckets, op.B)
+			if g := r.quiet("HEAD", target(op.B, "", nil)); g.Status != 404 {
+				r.fail("frame.others", "a bucket deletion that was acknowledged leaves the bucket in place "+r.bctx(), "404", g.String())
+			}
 		}
 		return
 	}
